@@ -10,10 +10,13 @@ import (
 	"os"
 	"runtime"
 	"runtime/debug"
+	"strconv"
 	"testing"
 	"testing/synctest"
+	"time"
 
 	"verifsim/scen"
+	"verifsim/sim"
 	"verifsim/world"
 )
 
@@ -50,6 +53,7 @@ func TestWorker(t *testing.T) {
 	w := bufio.NewWriter(of)
 	heapCap := uint64(1200 << 20)
 	world.InstallHooks()
+	go stallWatchdog()
 	func() {
 		defer func() {
 			// the end-of-bubble "deadlock: blocked goroutines remain" panic is
@@ -58,7 +62,9 @@ func TestWorker(t *testing.T) {
 		}()
 		synctest.Test(t, func(t *testing.T) {
 			for i, p := range jobs {
+				sim.Progress.Add(1)
 				res := scen.Run(p, scratch)
+				sim.Progress.Add(1)
 				b, _ := json.Marshal(res)
 				w.Write(b)
 				w.WriteByte('\n')
@@ -76,4 +82,30 @@ func TestWorker(t *testing.T) {
 			os.Exit(0)
 		})
 	}()
+}
+
+// stallWatchdog runs outside the bubble on real time. It decides nothing about
+// a run; it only turns "the scheduler has not come round for VERIF_STALL_S
+// seconds" (a goroutine of the code under test blocked for ever on a real
+// mutex, e.g. after a handler panicked while holding it) into a prompt exit
+// with a goroutine dump, which the driver classifies.
+func stallWatchdog() {
+	limit := 150
+	if v, err := strconv.Atoi(os.Getenv("VERIF_STALL_S")); err == nil && v > 0 {
+		limit = v
+	}
+	last, since := sim.Progress.Load(), time.Now()
+	for {
+		time.Sleep(2 * time.Second)
+		if p := sim.Progress.Load(); p != last {
+			last, since = p, time.Now()
+			continue
+		}
+		if time.Since(since) > time.Duration(limit)*time.Second {
+			buf := make([]byte, 4<<20)
+			n := runtime.Stack(buf, true)
+			fmt.Fprintf(os.Stderr, "verif: stalled: no scheduler progress for %d s of real time\n\n%s\n", limit, buf[:n])
+			os.Exit(4)
+		}
+	}
 }
